@@ -25,6 +25,8 @@ type params struct {
 	reloadFail bool // initiateReload returns an error
 	twoReloads bool
 	bFirst     bool // B starts without waiting (distinct numbers only)
+	three      bool // a third connection C reuses the number once more while A and B are still closing
+	noReload   bool
 }
 
 type world struct {
@@ -35,8 +37,10 @@ type world struct {
 	accepted map[string]string // record id -> connection, for every ReloadableSink.Accept that returned
 	disk     []string          // queued records written to the on-disk queue by shut-down pipeline sets, not yet taken over
 	markerA  bool
+	markerB  bool
 	doneA    bool
 	doneB    bool
+	doneC    bool
 	events   []string
 }
 
@@ -55,6 +59,8 @@ func (w *world) who() string {
 	switch {
 	case name == "connA":
 		return "A"
+	case name == "connC":
+		return "C"
 	case name == "connB":
 		return "B"
 	case name == "driver":
@@ -91,6 +97,8 @@ type recSink struct {
 }
 
 func (d *recOrc) NewSink(addr string, n base.ClientNumber) base.BufferReceiverSink {
+	// the real orchestrators take locks and send on channels in here: a scheduling point inside the caller's critical section
+	vsched.Yield("fake.NewSink")
 	s := &recSink{orc: d, owner: addr}
 	d.sinks = append(d.sinks, s)
 	d.w.ev("%s.NewSink(%s,%d) by %s%s", d.name, addr, n, d.w.who(), deadMark(d))
@@ -117,7 +125,19 @@ func (d *recOrc) Shutdown() {
 
 func recID(r *base.LogRecord) string { return r.Fields[0] }
 
+// dead reports a call on a sink that must not be used any more (also when it has nothing buffered)
+func (s *recSink) dead(call string) {
+	w := s.orc.w
+	if s.closed {
+		w.violate("call-on-closed-sink", "%s on the sink of connection %s in %s by %s after that sink had been closed (by %s)", call, s.owner, s.orc.name, w.who(), s.closedBy)
+	} else if s.orc.shutdown {
+		w.violate("call-on-dead-pipelines", "%s on the sink of connection %s by %s after pipeline set %s had been shut down", call, s.owner, w.who(), s.orc.name)
+	}
+}
+
 func (s *recSink) Accept(buffer []*base.LogRecord) {
+	vsched.Yield("fake.Accept")
+	s.dead("Accept")
 	w := s.orc.w
 	for _, r := range buffer {
 		s.buf = append(s.buf, recID(r))
@@ -144,10 +164,14 @@ func (s *recSink) flush() {
 }
 
 func (s *recSink) Tick() {
+	vsched.Yield("fake.Tick")
+	s.dead("Tick")
 	s.flush()
 }
 
 func (s *recSink) Close() {
+	vsched.Yield("fake.Close")
+	s.dead("Close")
 	w := s.orc.w
 	w.ev("%s sink(%s) closed by %s", s.orc.name, s.owner, w.who())
 	if w.who() != s.owner && w.who() != "reload" {
@@ -306,14 +330,35 @@ func drive(w *world) explore.Verdict {
 		s := R.NewSink("B", numB)
 		accept("B", s, "b1")
 		s.Tick()
+		if p.three {
+			w.markerB = true
+			w.ev("B: socket closed, client number %d is free again", numB)
+			vsched.Yield("connB.socket-closed")
+		}
 		accept("B", s, "b2")
 		s.Tick()
 		s.Close()
 		w.doneB = true
 	})
+	if p.three {
+		// a third connection gets the same client number again while A and B are both still closing: two collisions pending
+		vsched.Go("connC", func() {
+			vsched.WaitUntil("connC.wait-fd-free", vsched.VNow().Add(0), func() bool { return w.markerB })
+			s := R.NewSink("C", numA)
+			accept("C", s, "c1")
+			s.Tick()
+			s.Close()
+			w.doneC = true
+		})
+	} else {
+		w.doneC = true
+	}
 	nSig := 1
 	if p.twoReloads {
 		nSig = 2
+	}
+	if p.noReload {
+		nSig = 0
 	}
 	for i := 0; i < nSig; i++ {
 		vsched.Lazy("driver.sighup")
@@ -321,8 +366,8 @@ func drive(w *world) explore.Verdict {
 		vsched.Raise(syscall.SIGHUP)
 	}
 	vsched.Idle()
-	if !w.doneA || !w.doneB {
-		w.violate("connection-stuck", "a connection did not finish: A=%v B=%v", w.doneA, w.doneB)
+	if !w.doneA || !w.doneB || !w.doneC {
+		w.violate("connection-stuck", "a connection did not finish: A=%v B=%v C=%v", w.doneA, w.doneB, w.doneC)
 	}
 	R.Shutdown()
 
@@ -420,6 +465,8 @@ func scenarios() []*explore.Scenario {
 	add(params{name: "distinct/reload-fails", reloadFail: true}, 2, 3, 1)
 	add(params{name: "reuse/reload-fails", reuse: true, reloadFail: true}, 2, 3, 1)
 	add(params{name: "distinct/two-reloads", twoReloads: true}, 1, 3, 2)
+	add(params{name: "reuse3/no-reload", reuse: true, three: true, noReload: true}, 1, 2, 1)
+	add(params{name: "reuse3/reload-ok", reuse: true, three: true}, 1, 2, 2)
 	return out
 }
 
